@@ -87,11 +87,11 @@ theorem eliminateSelfJoin_congr_pbase {A B : List Rule} {r : Rule}
       | some pb =>
         rw [ha, hb] at this
         simp only [Option.map_some, Option.some.injEq, pbaseOf, Prod.mk.injEq] at this
-        obtain ⟨_, h2, h3, h4, h5, h6⟩ := this
+        obtain ⟨h1, h2, h3, h4, h5, h6⟩ := this
         have hsj : subjRefsAreJoinCols r pa = subjRefsAreJoinCols r pb := by
           unfold subjRefsAreJoinCols refsOfRule
           simp only [h4, h5, ↓reduceIte]
-        simp only [h2, h3, h4, h5, h6, hsj]
+        simp only [h1, h2, h3, h4, h5, h6, hsj]
   · rfl
 
 theorem evalRule_congr_pbase {env : Env} {A B : List Rule} {r : Rule}
